@@ -96,18 +96,33 @@ def run(ctx, rnd):
     for prov in ("zoneinfo", "pytz"):
         try:
             tzp.use(prov)
-            for n in ((70, 140, 300) if ctx.quick else (70, 140, 300, 600, 1100)):
+            # a bound K of the cache is unknown to the check, but which zones the process still resolves is observable:
+            # a calendar that only USES an id (no definition) gets an aware value iff the id is cached.  The oldest
+            # surviving entry is the one an evicting cache would drop next -- exactly the zone the test calendars define.
+            for n in ((150, 400) if ctx.quick else (70, 150, 400, 1200)):
+                tzp.use(prov)          # start from an empty cache
                 offs = {f"Verif/Cap-{n}-{i}": 60 + (i * 15) % 600 for i in range(n)}
+                ids = list(offs)
                 for tzid, off in offs.items():
                     Calendar.from_ical(cal_of([(tzid, off)], [tzid]))
-                oldest, mid = f"Verif/Cap-{n}-0", f"Verif/Cap-{n}-{n // 2}"
-                new = f"Verif/Cap-{n}-new"
-                for defs in ([(oldest, offs[oldest]), (new, 45)], [(mid, offs[mid]), (oldest, offs[oldest]), (new, 45), (new + "2", 75)]):
+                for rnd_ in range(6):
+                    alive = offsets(cal_of([], ids))
+                    o = next((i for i, x in enumerate(alive) if x is not None), None)
+                    if o is None:
+                        ctx.fail("P:C12:own-definition", {"capacity": n, "provider": prov, "impl_equal": False, "kf": False, "what": "no zone survives"}, alive[:5], None)
+                        break
+                    oldest = ids[o]
+                    nxt = ids[min(o + 1, n - 1)]
+                    new1, new2 = f"Verif/Cap-{n}-new{rnd_}a", f"Verif/Cap-{n}-new{rnd_}b"
+                    defs = [[(oldest, offs[oldest]), (new1, 45)],
+                            [(oldest, offs[oldest]), (nxt, offs[nxt]), (new1, 45), (new2, 75)],
+                            [(nxt, offs[nxt]), (oldest, offs[oldest]), (new1, 45)]][rnd_ % 3]
                     uses = [d[0] for d in defs]
                     want = [d[1] for d in defs]
                     got = offsets(cal_of(defs, uses))
-                    ctx.case(("capacity", prov, n, len(defs)), True)
+                    ctx.case(("capacity", prov, n, rnd_), True)
                     if got != want:
-                        ctx.fail("P:C12:own-definition", {"capacity": n, "defs": defs, "provider": prov, "impl_equal": False, "kf": False}, got, want)
+                        ctx.fail("P:C12:own-definition", {"capacity": n, "oldest_surviving": o, "defs": defs, "provider": prov, "impl_equal": False, "kf": False},
+                                 got, want)
         finally:
             tzp.use_default()
